@@ -1,7 +1,7 @@
 """C04 — after every completed operation the CSV file alone holds the current contents.
 
 Generated histories on a CSV database opened with a generated storage configuration
-{flush_on_insert} x {encoding: default, utf-8, utf-16, latin-1} x {csv dialect options} x {auto_index} (compact / default key prefixes
+{flush_on_insert} x {encoding: default, utf-8, utf-16, latin-1} x {csv dialect options} x {auto_index} x {access_mode r+, w+} (compact / default key prefixes
 mixed per insert).  After every returning operation (flush_on_insert=True) - or after close() (flush_on_insert=False, as the statement
 says) - the file bytes are decoded by the independent reader csvref and by a fresh TinyFlux(path, access_mode='r', same configuration),
 and both must equal the reference model's contents in insertion order; the live instance is compared as well.
@@ -18,7 +18,7 @@ from ..core import Violation
 ID = "C04"
 LEVEL = "exploration"
 RULE = (
-    "Hypothesis-generated (configuration, history) pairs: configuration = flush_on_insert x encoding {None, utf-8, utf-16, latin-1} x 9 csv dialect option sets x auto_index; history = inserts "
+    "Hypothesis-generated (configuration, history) pairs: configuration = flush_on_insert x encoding {None, utf-8, utf-16, latin-1} x 9 csv dialect option sets x auto_index x access_mode {r+, w+}; history = inserts "
     "(compact or default prefixes per insert), insert_multiple, update, remove, drop_measurement, remove_all, reindex, reopen, and probes whose get/contains stop reading early; string pool with "
     "delimiters, quotes, CR, LF, CRLF, tabs, non-ASCII (restricted to what the encoding can encode) and occasional > 8 KiB values. After each operation the file is decoded independently and by a fresh "
     "read-only instance and compared with the model. Non-trivial = history with >= 1 rewrite (update/remove that changed something) under a non-default configuration, or an insert after an "
@@ -63,7 +63,7 @@ def wide_pool_points(draw, strings):
 def cases(draw, max_ops):
     enc = draw(st.sampled_from(ENCODINGS))
     strings = LATIN1 if enc == "latin-1" else STRINGS
-    cfg = {"flush_on_insert": draw(st.sampled_from([True, True, False])), "encoding": enc, "dialect": draw(st.sampled_from(sorted(DIALECTS))), "auto_index": draw(st.booleans())}
+    cfg = {"flush_on_insert": draw(st.sampled_from([True, True, False])), "encoding": enc, "dialect": draw(st.sampled_from(sorted(DIALECTS))), "auto_index": draw(st.booleans()), "access_mode": draw(st.sampled_from(["r+", "r+", "r+", "w+"]))}
     pts = wide_pool_points(strings)
     seed_pts = draw(st.lists(pts, min_size=1, max_size=6))
     ops = [["insert_multiple", seed_pts, 0, draw(st.sampled_from(["inorder", "asis"])), "db", None, "m1"]]
@@ -84,6 +84,8 @@ def storage_kwargs(cfg):
     kw["flush_on_insert"] = cfg["flush_on_insert"]
     if cfg["encoding"] is not None:
         kw["encoding"] = cfg["encoding"]
+    if cfg.get("access_mode", "r+") != "r+":
+        kw["access_mode"] = cfg["access_mode"]
     return kw
 
 
@@ -101,6 +103,7 @@ def file_check(ls, real, cfg, case, when):
     if ref != exp:
         raise Violation("file-contents", case_of(ls, cfg), "%s: file decodes (independent reader) to %d points %s, current contents are %d points %s" % (when, len(ref), lockstep.brief(ref), len(exp), lockstep.brief(exp)))
     kw = storage_kwargs(cfg)
+    kw.pop("access_mode", None)
     try:
         fresh = TinyFlux(real.path, access_mode="r", auto_index=cfg["auto_index"], **kw)
         try:
@@ -140,6 +143,7 @@ def run_case(case, ctx, acc):
     kw = storage_kwargs(cfg)
     ls = lockstep.Lockstep(ctx, configs=[("csv", cfg["auto_index"], kw, ":" + cfg["dialect"])])
     real = ls.reals[0]
+    real.kwargs.pop("access_mode", None)  # opening with "w+" truncates by definition, so re-opens inside the history use the default mode
     info = {"rewrites": 0, "early_then_insert": False, "big": False}
 
     def post(ls_, op):
